@@ -50,7 +50,7 @@ CLAIMED.update({
         'global run on a equals a solo run, so C01 applies to each; accepting a request never alters a running transfer; the registry as a CONCURRENT object (every interleaving of the listener in add, the reaper in run and any number of sub-server threads, at the granularity of one lock / dictionary / flag operation): the table is touched and iterated only by the lock holder, no reachable state is a deadlock, the listener is blocked only for the rest of the holder s section (add completes after boundedly many fair rounds), add never leaves two live transfers for one TID; the sub-server binds an ephemeral port WITHOUT address / port reuse (fact regenerated from tftpd.py -- with SO_REUSEADDR Linux hands the UDP port of a live transfer to a new one; found, fixed). Tie: digests and lock-placement facts of TFTPSubServers regenerated from the source; the real TFTPSubServers under a deterministic scheduler shim vs the extracted model; 2-6 real '
         'in-process transfers under seeded interleavings vs the extracted model; runtime tier with real threads and loopback UDP '
         '(stalling / vanishing / erroring clients, latency of a fresh request); an own-port tier (1500 / 3000 simultaneously live sub-servers on real sockets: pairwise different ports) and '
-        'two handler objects alive at once in every interleaving of their setup / handle / finish phases (each client gets ITS block).',
+        'two handler objects alive at once in every interleaving of their setup / handle / finish phases (each client gets ITS block). The file-system lock the transfers share: exclusion / no-deadlock / source-match theorems of C13 restated here, reduced lock exploration in the check.',
    note=COMMON_NOTE + 'PARTIAL: progress statements assume weak fairness and that thread.join does not time out; pre-emption INSIDE a handler (below one primitive operation), the GIL and OS port allocation are not modelled and only observed by the real-UDP tier.',
    design='§7 C07'),
  'C08': dict(
@@ -163,7 +163,7 @@ CLAIMED.update({
    text='Theorems: for every public function of fs.py/path.py and EVERY execution of its body (statements in any order, repeated, interrupted anywhere by return or exception, calls to '
         'any depth) each store into the image happens while the thread holds the write side, and at the end the thread holds neither side; the composite operations (unlink, rename, mkdir, rmdir, touch, write_bytes/text, read_bytes/text, iterdir/glob/rglob, FatFile.write/truncate/readall) are ONE outermost lock section (all lock events and stores inside a single with-block); plus the generic soundness theorems of both checks. '
         'Tie: the skeleton (with-lock nesting, store sites, call sites) is regenerated from the source on every run (fail closed on bare acquire/release); runtime: RWLock wrapped by a recorder, '
-        'image diffed at every executed line over seeded histories incl. reads, listings, exhausted / closed / dropped generators, atime reads; 2-4 real threads on one volume vs serial result.',
+        'image diffed at every executed line over seeded histories incl. reads, listings, exhausted / closed / dropped generators, atime reads; 2-4 real threads on one volume vs serial result. The lock itself: exclusion, no-deadlock and source-match theorems of C13 restated here (Locks/Export.v) and a reduced lock exploration in the check; probes for readers interleaved on multi-cluster directories and for two volumes with independent locks.',
    note=FAT_NOTE + 'The skeleton is an over-approximation resolved by method name (trusted translator; it refuses lock sections inside loops for the single-section theorem); serial equivalence then follows from the exclusion theorems of C13, informally composed; real pre-emption is observed only by the thread tier (PARTIAL). Found and fixed: FatFile.write padded past EOF in a separate exclusive section.',
    design='§7 C14'),
  'C15': dict(
@@ -195,7 +195,7 @@ CLAIMED.update({
    technique='Coq proof (fuel induction over an abstract short-reading reader) of copy_bytes exactness and termination + Coq proofs over a tree model of the shell commands (exactness, round trip, frame) + AST expression translation + differential check against the real tool + end-to-end shell oracle with shrinking',
    text='Theorems: for every content, position, range, reader (short reads allowed) and loop variant copy_bytes returns within |content|+2 iterations having written exactly content[start:min(stop,|content|)]; '
         'the single-read fast path yields a non-empty prefix on a short-reading raw source; step != 1 rejected. Tree half (Shell/Model.v: host and partition trees, names folded on partitions, every branch of do_cp/do_mv/do_rm/do_rmdir/do_mkdir/do_touch/do_cat incl. where a multi-source command stops): cp copies exactly the bytes / the merged tree, cp -r in then out returns the original tree, mv moves (same fs = rename, across = copy and remove), rm/rmdir remove exactly what was named, EVERY command whatever its outcome changes only paths at or below those it names, cat = concatenation; tied to sh.py by replaying seeded and adversarial command streams through the real nobodd.sh.main and the extracted model (status class, cat output, all three trees after every command). Shell commands (cp/-r, mv, rm/-r/-f, rmdir, mkdir/-p, touch, cat over host, img:N/ and img:/ paths, '
-        'FAT12/16/32, two partitions, sizes around 64 KiB, ENOSPC) are checked end to end by an oracle: expected in-memory trees vs fresh read-back after every command, exit status, extracted Coq structural check (sampled). Also: a scanner for sh._image_re (which words name something inside an image) with soundness / completeness / host-word theorems, compared exhaustively with the real regular expression; and C19_any_command_keeps_the_volume_consistent: sh.py uses the public path API only (regenerated fact), and any history of path operations, whatever each outcome, keeps the volume invariant (FV_history_inv); a failing mv whose target cannot be created is part of the image-level oracle.',
+        'FAT12/16/32, two partitions, sizes around 64 KiB, ENOSPC) are checked end to end by an oracle: expected in-memory trees vs fresh read-back after every command, exit status, extracted Coq structural check (sampled). Also: a scanner for sh._image_re (which words name something inside an image) with soundness / completeness / host-word theorems, compared exhaustively with the real regular expression; and C19_any_command_keeps_the_volume_consistent: sh.py uses the public path API only (regenerated fact), and any history of path operations, whatever each outcome, keeps the volume invariant (FV_history_inv); a failing mv whose target cannot be created is part of the image-level oracle. The pure path algebra of FatPath (get_parts, str, name, parent, joinpath, with_name, relative_to) is modelled with canonical-form, stability, printing, child and relative_to theorems and compared with the real class.',
    note='Proof level for byte copying and for the command semantics over trees; that the IMAGE is structurally consistent after a failing command is oracle-level (the tree model has no clusters), and 8.3 aliases, ENOSPC, timestamps and symlinks are not in the tree model (PARTIAL there). Assumes full reads unless at EOF for the fast path (true for buffered readers). '
         'Found and fixed: divergence past end of source, two FatFileSystem instances per partition (mv lost the file), cp onto itself.',
    design='§7 C19'),
